@@ -23,6 +23,7 @@ type feat struct {
 	typeValueRebinds     bool // a type value binds a name that the values bind to another type
 	namedAndBareMember   bool // a union with members n=T and T
 	namedRepeated        bool // the same named type occurs more than once
+	namedOverNamed       bool // a named type directly over another named type
 }
 
 func underSpec(t *TSpec) *TSpec {
@@ -48,6 +49,9 @@ func (f *feat) walkType(t *TSpec, depth int, names map[string]string) {
 		names[t.Name] = d
 		if t.Elems[0].Kind == "named" && t.Elems[0].Name == t.Name {
 			f.namedOverSameName = true
+		}
+		if t.Elems[0].Kind == "named" {
+			f.namedOverNamed = true
 		}
 		u := underSpec(t)
 		switch u.Kind {
@@ -196,6 +200,9 @@ func classifyRT(cs *rtCase, res rtResult) string {
 		return p + "short-typedef-under-decorator"
 	case res.class == "type-mismatch" && f.namedOverSameName:
 		return p + "named-over-same-name"
+	case res.class == "type-mismatch" && f.namedOverNamed && !f.sameNameTwoTypes:
+		// the same mechanism with two different names: `v(=z)` for z=(y=T) reads back as z=T
+		return p + "named-over-named"
 	case (res.class == "type-mismatch" || res.class == "value-mismatch" || res.class == "parse-error") && f.typeValueRebinds:
 		return p + "type-value-rebinds-name"
 	case (res.class == "type-mismatch" || res.class == "value-mismatch" || res.class == "parse-error") && f.sameNameTwoTypes:
